@@ -53,7 +53,8 @@ type violation struct {
 func newCtx(id, tier string, seed int64) *Ctx {
 	c := &Ctx{ID: id, Tier: tier, Seed: seed, Start: time.Now(),
 		shapes: map[string]int64{}, rules: map[string]int64{}, drift: map[string]int64{},
-		knownHit: map[string]string{}, extra: map[string]interface{}{}, exhaustive: false}
+		knownHit: map[string]string{}, extra: map[string]interface{}{}, exhaustive: false,
+		assumptions: []string{"TLC explores the stated bounded space completely; beyond it only seeded samples", "the TLA+ reference semantics (spec/PlushSem.tla) is the documented meaning"}}
 	c.findings = loadFindings()
 	return c
 }
